@@ -162,4 +162,8 @@ def extra_checks(tier, seed):
                     dict(kind='counterexample', stream='unqueued machine, callbacks that trigger', case=c, model_obs=m, impl_obs=i)))
     else:
         out.append(('unqueued_reentrant_order', True, detail, {}))
+    # the same on the flat asyncio classes (callbacks await the nested trigger)
+    import c18
+    name, ok, detail, rep = c18.async_flat_reentrant_stream(tier, seed + 500)
+    out.append(('unqueued_reentrant_order_asyncio', ok, detail, rep))
     return out
